@@ -639,8 +639,10 @@ def check_c16(tier, seed):
 # ---------------------------------------------------------------------------------------------
 # mirisched (C17)
 
-C17_TIERS = {"quick": 160, "thorough": 4096}
-MIRI_RATES = ["0.01", "0.1", "0.3", "0.6"]
+C17_TIERS = {"quick": 176, "thorough": 4096}
+# higher pre-emption rates make narrow windows (two threads inside the same few statements)
+# far more likely; 0.01 keeps nearly sequential schedules in the mix
+MIRI_RATES = ["0.01", "0.1", "0.3", "0.6", "0.3", "0.6", "0.1", "0.3"]
 MIRI_RUN_TIMEOUT = 240
 
 
@@ -656,6 +658,10 @@ def miri_args(cfg, mode="concurrent"):
         a += ["--long", str(cfg["long"])]
     if cfg.get("churn"):
         a += ["--churn", str(cfg["churn"])]
+    if cfg.get("barrier") and mode == "concurrent":
+        a.append("--barrier")
+    if cfg.get("stagger") and mode == "concurrent":
+        a += ["--stagger", str(cfg["stagger"])]
     if cfg.get("stamped"):
         a.append("--stamped")
     if cfg.get("main_participates") and mode == "concurrent":
@@ -719,7 +725,9 @@ class SeqRef:
         import itertools
 
         T = cfg["threads"]
-        for perm in itertools.permutations(range(T)):
+        # thread-local designs are explained by the very first serial order; for many threads only
+        # a few serial orders are tried before the general (interleaved) explanation is attempted
+        for perm in itertools.islice(itertools.permutations(range(T)), 24):
             p, _, _, _ = self.native(cfg, "serial", ("--perm", ",".join(map(str, perm))))
             if p == prio:
                 return True, "serial order %s" % (list(perm),)
@@ -761,9 +769,11 @@ def c17_matrix(seed, count, deep=False):
             # thorough tier only: more threads and longer histories on a quarter of the runs
             threads = 3 + rng.below(2)
             ops = 12 + rng.below(13)
+            if i % 16 == 3:
+                threads, ops = 5 + rng.below(2), 6 + rng.below(5)
         cfgs.append({
             "miri_seed": rng.below(1 << 31),
-            "rate": MIRI_RATES[i % 4],
+            "rate": MIRI_RATES[i % len(MIRI_RATES)],
             "threads": threads,
             "hseed": rng.below(1 << 40),
             "ops": ops,
@@ -771,6 +781,10 @@ def c17_matrix(seed, count, deep=False):
             "main_participates": rng.below(4) == 0,
             # a quarter of the runs end with a churn phase (remove one, insert one, 20-80 times)
             "churn": (20 + rng.below(61)) if i % 4 == 1 else 0,
+            # some runs start their threads staggered (thread i yields i*k times first)
+            "stagger": rng.below(12) if i % 5 == 2 else 0,
+            # a third of the runs release their threads together through a start barrier
+            "barrier": i % 3 == 0,
         })
     # long runs: more than 1024 (thorough: 4096) node creations per thread, so that anything that
     # happens only every N draws (batched statistics, periodic re-seeding, block reservations)
@@ -779,7 +793,7 @@ def c17_matrix(seed, count, deep=False):
     for j, (threads, n) in enumerate(longs):
         cfgs.append({
             "miri_seed": rng.below(1 << 31),
-            "rate": MIRI_RATES[(j + 1) % 4],
+            "rate": MIRI_RATES[(j + 1) % len(MIRI_RATES)],
             "threads": threads,
             "hseed": rng.below(1 << 40),
             "ops": 4,
@@ -787,6 +801,27 @@ def c17_matrix(seed, count, deep=False):
             "stamped": False,
             "main_participates": j % 3 == 2,
         })
+    # first-draw storms: many threads whose very first draws happen at (nearly) the same time, at
+    # high pre-emption rates - once-per-process windows (lazy initialisation, seed resolution,
+    # "am I the first thread" checks) need exactly that, and the chance that some pair of threads
+    # overlaps inside a two-statement window grows with the square of the thread count
+    storms = 96 if not deep else 768
+    for j in range(storms):
+        cfgs.append({
+            "miri_seed": rng.below(1 << 31),
+            # measured with a seeded two-statement-window race: with a start barrier the hit rate
+            # per run is 5-8 % at rates 0.01-0.1 and 3-8 threads, and about 0 at rates >= 0.3
+            # (the second thread must reach the window before the first is scheduled again)
+            "rate": ["0.03", "0.1", "0.01", "0.03"][j % 4],
+            "threads": [8, 3, 8, 4][j % 4],
+            "hseed": rng.below(1 << 40),
+            "ops": 1 + j % 2,
+            "stamped": j % 2 == 0,
+            "main_participates": j % 3 == 0,
+            "barrier": True,
+            "stagger": 0,
+        })
+    cfgs.sort(key=lambda c: -c.get("long", 0))  # stable: the slow long runs start first
     return cfgs
 
 
@@ -932,8 +967,8 @@ def check_c17(tier, seed):
         "distinct_nontrivial": len(interleavings),
         "exhaustive": False,
         "rule": (
-            "A run = one execution of the multi-threaded program sim/mirisched under Miri with (-Zmiri-seed, -Zmiri-preemption-rate in {0.01,0.1,0.3,0.6}, 2-3 threads, "
-            "optionally the main thread as participant, per-thread history of 5-14 (thorough: up to 24, with up to 4 threads) node creations / treap operations on thread-owned treaps whose item types (node layouts) differ between threads; plus a few long runs with 300-2100 (thorough: up to 4200) bare node creations per thread). One Miri seed = one exactly repeatable schedule. "
+            "A run = one execution of the multi-threaded program sim/mirisched under Miri with (-Zmiri-seed, -Zmiri-preemption-rate in {0.01,0.1,0.3,0.6} (weighted towards 0.3 and 0.6), 2-3 threads, "
+            "optionally the main thread as participant, per-thread history of 5-14 (thorough: up to 24, with up to 6 threads) node creations / treap operations on thread-owned treaps whose item types (node layouts) differ between threads; plus a few long runs with 300-2100 (thorough: up to 4200) bare node creations per thread, plus first-draw storms: 3-8 threads released by a start barrier doing 1-2 creations each at pre-emption rates 0.01-0.1). One Miri seed = one exactly repeatable schedule. "
             "distinct_nontrivial = number of distinct global node-creation orders (sequence of thread ids sorted by a Relaxed stamp) with at least 2 thread switches, among the stamped half of the runs."
         ),
         "miri_executions": len(cfgs),
